@@ -382,12 +382,17 @@ def fillValue (S : Schema) (f : Field) (cs : List Node) : List Node :=
      else .mk f.ty [] [] ""]
   else cs
 
+/-- the Go type an element is decoded into when the field's type is `ty`: `AnExpression.UnmarshalXML`
+picks the formal or the informal expression type from the type attribute -/
+def parseTy (S : Schema) (env' : List (Nat × Nat)) (ty : Nat) (attrs : List (QN × String)) : Nat :=
+  if ty == S.anExprTy then (if isFormal S env' attrs then S.formalTy else S.informalTy) else ty
+
 mutual
 /-- unmarshal one element into a value of type `ty` (`AnExpression`: into the wrapped expression) -/
 def parseElem (S : Schema) (env : List (Nat × Nat)) (ty : Nat) : Xml → Option Node
   | .elem _ decls attrs kids text =>
     let env' := decls ++ env
-    let ty' := if ty == S.anExprTy then (if isFormal S env' attrs then S.formalTy else S.informalTy) else ty
+    let ty' := parseTy S env' ty attrs
     let d := unmarshalDefaults S ty'
     let efs := elemFields S ty'
     match parseKids S env' efs kids with
@@ -419,19 +424,30 @@ def normAttrs (d : List (Nat × String)) : List FField → List (Option String) 
   | f :: fs, v :: vs => v.map (applyDefault d f.f.go) :: normAttrs d fs vs
   | _, _ => []
 
+/-- does `PreMarshal` (which trims the text) run on a child of type `cty` held by field `f`: not on a
+value field encoded by the default rules (its pointer-receiver `MarshalXML` is never called) -/
+def kidTrim (S : Schema) (f : Field) (cty : Nat) : Bool :=
+  if byDefaultRules S f && f.ty != S.anExprTy then false else trimsText S cty
+
 mutual
-def norm (S : Schema) (tr : String → String) (defaults : List (Nat × String)) : Node → Node
+/-- the model a round trip returns for `n`: the same tree, with the text of an element on which
+`PreMarshal` runs (`trim`) trimmed, the text of an element that keeps none dropped, and the olive
+`Item` defaults (`if out.F == "" { out.F = c }`) of the element's own type applied -/
+def norm (S : Schema) (tr : String → String) (trim : Bool) : Node → Node
   | .mk ty attrs kids text =>
-    .mk ty (normAttrs defaults (attrFields S ty) attrs) (normFields S tr (elemFields S ty) kids)
-      (if keepsText S ty then (if trimsText S ty then tr text else text) else "")
+    .mk ty (normAttrs (unmarshalDefaults S ty) (attrFields S ty) attrs) (normFields S tr (elemFields S ty) kids)
+      (if keepsText S ty then (if trim then tr text else text) else "")
 def normFields (S : Schema) (tr : String → String) : List FField → List (List Node) → List (List Node)
   | _, [] => []
   | [], _ :: _ => []
-  | f :: fs, ks :: kss => normKids S tr (marshalDefaults S f.f.ty) ks :: normFields S tr fs kss
-def normKids (S : Schema) (tr : String → String) (defaults : List (Nat × String)) : List Node → List Node
+  | f :: fs, ks :: kss => normKids S tr f.f ks :: normFields S tr fs kss
+def normKids (S : Schema) (tr : String → String) (f : Field) : List Node → List Node
   | [] => []
-  | c :: cs => norm S tr defaults c :: normKids S tr defaults cs
+  | .mk cty a k t :: cs => norm S tr (kidTrim S f cty) (.mk cty a k t) :: normKids S tr f cs
 end
+
+/-- what `schema.Parse (xml.Marshal d)` is expected to return for a definitions `d` -/
+def normRoot (S : Schema) (tr : String → String) (n : Node) : Node := norm S tr (trimsText S S.rootTy) n
 
 end Bpmn.Model.Xml
 
@@ -557,7 +573,8 @@ def storedKids (S : Schema) (tr : String → String) : List Node → List Node
   | c :: cs => stored S tr c :: storedKids S tr cs
 end
 
-/-! ## Well-typed nodes: aligned with the flattened field lists, children of the declared type -/
+/-! ## Well-typed nodes: aligned with the flattened field lists, children of the declared type
+(a VALUE field always holds exactly one value, a pointer field at most one) -/
 
 mutual
 def wellTypedB (S : Schema) : Node → Bool
@@ -566,7 +583,7 @@ def wellTypedB (S : Schema) : Node → Bool
       && (keepsText S ty || text == "")
 def wtFields (S : Schema) : List FField → List (List Node) → Bool
   | [], [] => true
-  | f :: fs, ks :: kss => wtKids S f.f ks && wtFields S fs kss
+  | f :: fs, ks :: kss => (f.f.rep != .val || !ks.isEmpty) && wtKids S f.f ks && wtFields S fs kss
   | _, _ => false
 def wtKids (S : Schema) (f : Field) : List Node → Bool
   | [] => true
